@@ -154,6 +154,9 @@ class _UnconditionalPlanar(AbstractBijection):
         """
         wtu = self._act_scale @ self.weight
         m_wtu = -1 + jnp.log(1 + nn.softplus(wtu))
+        if self.negative_slope is not None and self.negative_slope > 1:
+            # w^T u > -1/slope is needed for 1 + slope * w^T u > 0 (leaky relu slope > 1)
+            m_wtu = m_wtu / self.negative_slope
         return self._act_scale + (m_wtu - wtu) * self.weight / norm(self.weight) ** 2
 
     def inverse(self, y, condition=None):
